@@ -54,6 +54,11 @@ func stress(run *ev.Run, nats *rig.NatsServer) {
 			decoys += r.Decoys
 			mu.Unlock()
 			switch {
+			case r.RetryBad != "":
+				mu.Lock()
+				bad++
+				mu.Unlock()
+				run.Violation("C01:stress:"+sp.leg+":retry-after-timeout-not-served", r.RetryBad, r.Witness)
 			case r.Bad != "":
 				mu.Lock()
 				bad++
